@@ -20,7 +20,7 @@ import time
 ROOT = "/verif"
 
 
-def sh(cmd, cwd=None, env=None, timeout=3600):
+def sh(cmd, cwd=None, env=None, timeout=900):
     p = subprocess.run(cmd, cwd=cwd, env=env, stdout=subprocess.PIPE, stderr=subprocess.STDOUT,
                        timeout=timeout, text=True)
     return p.returncode, p.stdout
